@@ -53,6 +53,16 @@ Theorem C08_canonical_example :
 Proof. exact canonical_example. Qed.
 Print Assumptions C08_canonical_example.
 
+(* float64 (the values gv_plain and simple now admit at any depth): NaN is written as f9 7e00, the infinities in half precision, every other bit pattern on 64 bits - each a well-formed item *)
+Theorem C08_enc_float_ser :
+  forall b,
+  (enc_float b = ser (WSim W2 32256) /\ is_nan64 b = true) \/
+  (enc_float b = ser (WSim W2 31744) /\ is_nan64 b = false /\ b = 2047 * 2 ^ 52) \/
+  (enc_float b = ser (WSim W2 64512) /\ is_nan64 b = false /\ b = 2 ^ 63 + 2047 * 2 ^ 52) \/
+  (enc_float b = ser (WSim W8 b) /\ is_nan64 b = false /\ b <> 2047 * 2 ^ 52 /\ b <> 2 ^ 63 + 2047 * 2 ^ 52).
+Proof. exact enc_float_ser. Qed.
+Print Assumptions C08_enc_float_ser.
+
 Theorem C08_ssorted_unique :
   forall l m, ssorted l -> ssorted m -> Permutation l m -> l = m.
 Proof. exact ssorted_unique. Qed.
@@ -80,7 +90,7 @@ Theorem C08_ser_inj :
 Proof. exact ser_inj. Qed.
 Print Assumptions C08_ser_inj.
 
-(* always decodable: by induction over arbitrarily nested values (integers of int64, UTF-8 text, byte strings, booleans, nil, arrays, maps with integer / text keys) the encoder output is the serialisation of a canonical tree that the library decoder accepts, and it decodes to the same value (integer kinds come back as int64, a nil []byte as nil, map entries in some order) *)
+(* always decodable: by induction over arbitrarily nested values (integers of int64, UTF-8 text, byte strings, booleans, nil, float64 of any bit pattern, arrays, maps with integer / text keys) the encoder output is the serialisation of a canonical tree that the library decoder accepts, and it decodes to the same value (integer kinds come back as int64, a nil []byte as nil, every NaN as the quiet NaN, map entries in some order) *)
 Theorem C08_enc_dec :
   forall kb g, encdec kb g.
 Proof. exact enc_dec. Qed.
@@ -106,6 +116,23 @@ Theorem C08_enc_dec_example :
   end.
 Proof. exact enc_dec_example. Qed.
 Print Assumptions C08_enc_dec_example.
+
+Theorem C08_enc_dec_float_example :
+  let g := GMap [GInt KInt 33; GArr [GFloat 4609434218613702656; GFloat 9218868437227405312; GFloat 18442240474082181120;
+                                     GFloat 9218868437227405313; GFloat 0; GFloat 9223372036854775808]] in
+  simple g = true /\
+  enc false g = Acc [161; 24; 33; 134; 251; 63; 248; 0; 0; 0; 0; 0; 0; 249; 124; 0; 249; 252; 0; 249; 126; 0;
+                     251; 0; 0; 0; 0; 0; 0; 0; 0; 251; 128; 0; 0; 0; 0; 0; 0; 0] /\
+  match enc false g with
+  | Acc b => match parse_full b with
+             | Some w => dec true w = Acc (GMap [GInt KInt64 33; GArr [GFloat 4609434218613702656; GFloat 9218868437227405312;
+                                                 GFloat 18442240474082181120; GFloat nan64; GFloat 0; GFloat 9223372036854775808]])
+             | None => False
+             end
+  | _ => False
+  end.
+Proof. exact enc_dec_float_example. Qed.
+Print Assumptions C08_enc_dec_float_example.
 
 (* header buckets: what ProtectedHeader.MarshalCBOR returns is accepted by ProtectedHeader.UnmarshalCBOR and has the same parameters *)
 Theorem C08_protected_roundtrip :
